@@ -39,6 +39,7 @@ type pki struct {
 	caDER  []byte
 	key    *ecdsa.PrivateKey
 	pool   *x509util.PEMCertPool
+	ca     *x509.Certificate // the root as parsed by the fork
 	serial int64
 	pubDER []byte
 }
@@ -66,6 +67,7 @@ func newPKI(t *testing.T) *pki {
 		t.Fatal(err)
 	}
 	p.pool.AddCert(c)
+	p.ca = c
 	return p
 }
 
@@ -235,6 +237,23 @@ func TestVerifC18(t *testing.T) {
 			c = verifkit.B(kept)
 			if kept != wantSub {
 				out.Fail(key+" sub="+ns(sub), fmt.Sprintf("log-list filter keeps=%v, start<=t<limit is %v", kept, wantSub))
+			}
+			// the other entry point of the same filter: Compatible, without a root and with a CA root the log accepts
+			// (or whose root set is unknown) — the window must be the same one
+			cert := &x509.Certificate{NotAfter: reloc(r, sub)}
+			roots := loglist3.LogRoots{}
+			if r.Bool() {
+				pool := x509util.NewPEMCertPool()
+				pool.AddCert(p.ca)
+				roots["u"] = pool
+			}
+			for i, root := range []*x509.Certificate{nil, p.ca} {
+				got := ll.Compatible(cert, root, roots)
+				k := len(got.Operators) == 1 && len(got.Operators[0].Logs) == 1
+				c += verifkit.B(k)
+				if k != wantSub {
+					out.Fail(key+" sub="+ns(sub), fmt.Sprintf("LogList.Compatible (root given: %v, roots known: %v) keeps=%v, start<=t<limit is %v", i == 1, len(roots) > 0, k, wantSub))
+				}
 			}
 		}
 		op := fmt.Sprintf("win %s %s %s %s", optStr(lo), optStr(up), ns(tt), ns(sub))
